@@ -346,10 +346,19 @@ def sc_plain(params, obs, save):
             if len(acc) >= want:
                 break
             time.sleep(0.01)
-        obs['inflight_samples'] = [
-            {'tag': t, 'accepted': h.accepted(), 'ready': h.ready(),
-             'worker_pids': list(h.worker_pids()), 't': time.monotonic()}
-            for t, h in list(handles.items())]
+        def snap(t, h):
+            # read under the handle's own lock: _ack sets "accepted" and the
+            # owner in two statements
+            m = getattr(h, '_mutex', None)
+            if m is not None:
+                m.acquire()
+            try:
+                return {'tag': t, 'accepted': h.accepted(), 'ready': h.ready(),
+                        'worker_pids': list(h.worker_pids()), 't': time.monotonic()}
+            finally:
+                if m is not None:
+                    m.release()
+        obs['inflight_samples'] = [snap(t, h) for t, h in list(handles.items())]
         time.sleep(params.get('gate_delay', 0.05))
     log('gate_open')
     open(gate, 'w').close()
